@@ -404,9 +404,6 @@ def gen_history(rng, stream: str = "main", max_ops: int = 40) -> Hist:
         # would silently get the member order of the first one -> one order per member set and history
         bases = union_order.setdefault(frozenset(bases), bases)
         sub, sup = rng.choice([(True, False), (True, False), (True, True), (True, True), (False, True)])
-        # (X2) known finding nofield-inherited-unpacker: no-field mode through a nailed holder over plain dataclasses
-        if stream != "kf" and not mode_field and wiring != "codec" and any(classes[x]["plain"] for x in bases):
-            wiring = "codec"
         shape = rng.choice(INNER_SHAPES)
         if rng.random() < 0.35:
             # the Discriminator around the container; a Union base below Optional flattens to Union[A, B, None]
@@ -904,9 +901,7 @@ def run_history(h: Hist):
                 why, acc_sub, acc_sup = spec_nofield_check(ns, n_classes, s, step["input"], obs)
                 if why is not None:
                     should = acc_sub if acc_sub else acc_sup
-                    kf = (s["wiring"] == "holder" and obs[0] in ("inst", "notfound") and bool(should)
-                          and all(c.__name__ in shadow for c in should))
-                    sig = {"kind": "nofield-inherited-unpacker" if kf else "nofield-dispatch", "wiring": s["wiring"]}
+                    sig = {"kind": "nofield-dispatch", "wiring": s["wiring"]}
                     fails.append((k, f"{step['call']}({step['input']}) -> {fmt(obs)}: {why}",
                                   "one of " + ",".join(c.__name__ for c in should) if should else "SuitableVariantNotFoundError",
                                   fmt(obs), sig))
@@ -1425,7 +1420,7 @@ CODE_THEOREMS = ["C12_code_variants", "C12_code_exceptions"]
 THEOREMS = ["C12_registry_invariant", "C12_registry", "C12_missing_tag", "C12_present_keys_not_missing", "C12_nested_missing_key", "C12_multi_field", "C12_dispatch_ref", "C12_history_independent_full", "C12_uniq_all_decidable", "C12_unhashable_tag", "C12_non_mapping", "C12_history_independent",
             "C12_eligible_exact", "C12_nofield", "C12_trace_event", "C12_tag_unique_decidable",
             "C12_nonunique_order_dependent", "C12_class_level_self_excluded",
-            "C12_nofield_inherited_unpacker_refuted"]
+            "C12_nofield_plain_holder"]
 
 
 def make_replay(h: Hist, k: int, what: str, exp: str, obs: str) -> dict:
@@ -1446,7 +1441,7 @@ def run(ctx: vlib.Ctx):
         "classes' module or in another one, call-time dialects incl. first calls (one model site per holder x dialect), "
         "codecs with default_dialect; inputs: present / future / unknown / absent keys, non-mapping inputs; 25% of the "
         "histories have duplicate tags (correspondence only). Plus 14 fixed edge histories, the stream inside the known-"
-        "finding region of DiscrKF and two probes (several taggers in one holder, Optional-Union).")
+        "former finding region (plain holders, no-field) and two probes (several taggers in one holder, Optional-Union).")
     ctx.assumptions += [
         "tag uniqueness is required only for the decoded tag among the classes defined before the event (tag_unique); "
         "without it the result depends on the history (C12_nonunique_order_dependent, reproduced on /repo each run)",
@@ -1454,8 +1449,8 @@ def run(ctx: vlib.Ctx):
         "property to that inner dispatcher on the same input (settings read from the real class); no-field mode: the oracle is "
         "silent when an eligible class declares its own class-level discriminator (no_nested); the theorems keep the hypotheses "
         "plain_carriers / no_nested, the nested behaviour itself is in the model and in the correspondence",
-        "(X2) no-field mode through an Annotated holder over plain (non-mixin) dataclasses is generated only in the "
-        "known-finding stream (finding C12/nofield-inherited-unpacker)",
+        "no-field mode through an Annotated holder over plain dataclasses (former finding nofield-inherited-unpacker, "
+        "repaired by /repo 233f7d4) is part of the main stream and has a dedicated stream",
         "Annotated[Optional[Union[..]], D] with include_supertypes and a tagger (known finding optional-union-nonetype-variant) "
         "is in the model (crash_on_refill; theorems carry the hypothesis no_crash / crash_on_refill s = false, refuted "
         "without it: C12_optional_union_refuted); the oracle classifies those failures by signature",
@@ -1604,8 +1599,8 @@ def run(ctx: vlib.Ctx):
         observed, flags, fails = run_history(h)
         account(h, observed, fails)
 
-    # ---- region of the known finding (kept out of the main correspondence by (X2)): compared with the faithful
-    #      model DiscrKF.krun (inherited compiled unpackers), oracle failures are classified by signature
+    # ---- no-field mode through a nailed holder over plain dataclasses with inherited compiled unpackers (the region of the
+    #      former finding nofield-inherited-unpacker, repaired by /repo 233f7d4): compared with the MAIN model
     kcases = []
     kres = []
     for _ in range(ctx.budget(60, 500)):
@@ -1613,23 +1608,20 @@ def run(ctx: vlib.Ctx):
         observed, flags, fails = run_history(h)
         account(h, observed, fails)
         kres.append((h, observed))
-        kcases.append("(" + vlib.coq_list([coq_site(s) for s in h.sites]) + ",\n    " + vlib.coq_list([coq_op(o) for o in h.ops])
-                      + ",\n    " + vlib.coq_list([coq_outcome(o) for o in observed]) + ")")
-    bad, log = vlib.coq_bad_idx("c12_kf", "Discr DiscrKF", "", "Close Scope Z_scope.\nOpen Scope nat_scope.\n", kcases, "kcase_ok",
-                                "list site * list op * list (option outcome)", shard=250, needs=["theories/DiscrKF.vo"])
+        kcases.append(coq_case(h, observed, flags))
+    bad, log = vlib.coq_bad_idx("c12_kf", "Discr DiscrRef", "", "Close Scope Z_scope.\nOpen Scope nat_scope.\n", kcases, "case_ok_ref",
+                                "list site * list op * list (option outcome) * list (option bool)", shard=250, needs=["theories/DiscrRef.vo"])
     if bad is None:
-        ctx.correspondence("kf-model-vs-impl", len(kcases), -1, log)
-        ctx.not_shown("correspondence kf-model-vs-impl", log)
+        ctx.correspondence("plain-holder-nofield-vs-model", len(kcases), -1, log)
+        ctx.not_shown("correspondence plain-holder-nofield-vs-model", log)
     else:
         detail = ""
         if bad:
             h, observed = kres[bad[0]]
             detail = json.dumps({"case": bad[0], "sites": [coq_site(s) for s in h.sites], "ops": [coq_op(o) for o in h.ops],
                                  "observed": [fmt(o) for o in observed]})
-            # the finding's faithful model no longer describes the code (repaired, or changed otherwise): not a violation by
-            # itself (DESIGN 2.4 'model-stale'); the oracle above decides whether the property holds there
-            ctx.notes.append("model-stale: DiscrKF (finding C12/nofield-inherited-unpacker) disagrees with the implementation: " + detail[:600])
-        ctx.correspondence("kf-model-vs-impl", len(kcases), len(bad), detail)
+            ctx.not_shown("correspondence plain-holder-nofield-vs-model", f"{len(bad)} histories disagree, first: {detail}")
+        ctx.correspondence("plain-holder-nofield-vs-model", len(kcases), len(bad), detail)
 
     # ---- several discriminated fields with different tagger functions in one holder
     probe_two_taggers(ctx, ctx.budget(40, 400))
